@@ -117,6 +117,9 @@ def main():
         add(["a"], {"a": closes}, [1, 2, 3], 1, "html")
         wit_ids[len(scs)] = a3
     res = vlib.run_children(scs, subcmd="backtest-child", timeout=1200)
+    for r_ in res:
+        if isinstance(r_, dict) and r_.get("log") is None:
+            r_["log"] = []      # a run in which no call reached the wrappers logs nothing (JSON null)
     nreal = 0
     samples = []
     logs = []
